@@ -119,6 +119,34 @@ def check(run, prog, tier):
                       "ValueAxis use its points through differences only (affine typing)", minimum=3)
     from . import handout
     handout.check_axis_lookup(run, "C08-M", prog)
+    run.rule("C08-N", "a flag given to a constructor is the flag of the new object (is_in_rwa of the evolutions apply() returns, of "
+                      "operators and state vectors): nothing the constructor does after recording it - an initial condition set, a "
+                      "storage allocated - writes it again", minimum=4)
+    rule_N(run, prog)
+
+
+def rule_N(run, prog):
+    """'... applied to any state reproduces direct propagation of that state': EvolutionSuperOperator.apply() creates the
+    evolution it returns with is_in_rwa=<frame of the superoperator>; the frame the caller converts from is the one the
+    constructor recorded.  All classes of the quantum-mechanics packages, all boolean constructor parameters stored under
+    their own name (qv/ctorparam.py)."""
+    from .. import ctorparam
+    rid = "C08-N"
+    n = 0
+    for cls in list(prog.all_classes()):
+        if not cls.module.name.startswith("quantarhei.qm.") or ".tests." in cls.module.name:
+            continue
+        for p_, ok, node, why in ctorparam.analyse(prog, cls):
+            n += 1
+            init = cls.methods["__init__"]
+            prog.consulted.add(init.relpath)
+            run.obligation(rid, cls.name + ".__init__", ok, key="flag:" + p_,
+                           message="%s(%s=...) records the flag and then runs %s: the object reports another value than the one it was "
+                                   "created with (an evolution created in the rotating frame is taken for one in the laboratory frame "
+                                   "and is not converted back)" % (cls.name, p_, why),
+                           loc=init.loc(node), sample={"parameter": p_})
+    if n < 4:
+        raise AnalysisError("C08-N: only %d boolean constructor parameters stored under their own name found in quantarhei.qm" % n)
 
 
 
